@@ -13,7 +13,7 @@ func shapeOf(w world.World, v core.Violation) string {
 			return sp.name
 		}
 	}
-	return "other"
+	return "plain"
 }
 
 type shapePred struct {
@@ -21,4 +21,125 @@ type shapePred struct {
 	pred func(w world.World, v core.Violation) bool
 }
 
-var shapePreds = []shapePred{}
+// The vocabulary is deliberately small and coarse; predicates are tried in
+// order. A known finding would be keyed by (property, class, site, shape).
+var shapePreds = []shapePred{
+	{"concurrent_callers", func(w world.World, v core.Violation) bool { return w.Threads > 1 }},
+	{"malformed_option", func(w world.World, v core.Violation) bool {
+		for _, a := range usedArgs(w) {
+			switch a.Kind {
+			case world.ArgNilOpt, world.ArgNilValue, world.ArgNonFunc, world.ArgNilFunc, world.ArgNilConv:
+				return true
+			}
+		}
+		return false
+	}},
+	{"generator", func(w world.World, v core.Violation) bool {
+		for _, a := range usedArgs(w) {
+			if a.Kind == world.ArgGen {
+				return true
+			}
+		}
+		return false
+	}},
+	{"redefine_history", func(w world.World, v core.Violation) bool {
+		for _, o := range w.Ops {
+			if o.Kind == world.OpRedefine {
+				return true
+			}
+		}
+		return false
+	}},
+	{"run_once_party", func(w world.World, v core.Violation) bool {
+		for _, p := range w.Parties {
+			if p.Once {
+				return true
+			}
+		}
+		return false
+	}},
+	{"built_party", func(w world.World, v core.Violation) bool {
+		for _, p := range w.Parties {
+			if p.InForm == world.FormBuilt {
+				return true
+			}
+		}
+		return false
+	}},
+	{"repeated_positional_type", func(w world.World, v core.Violation) bool {
+		for _, p := range w.Parties {
+			for _, ss := range [][]world.Slot{p.In, p.Out} {
+				seen := map[int]bool{}
+				for _, s := range ss {
+					if s.Name == "" && s.Sub == "" && seen[s.Type] {
+						return true
+					}
+					seen[s.Type] = true
+				}
+			}
+		}
+		return false
+	}},
+	{"multi_input_converter_cycle", func(w world.World, v core.Violation) bool {
+		var convs []int
+		multi := false
+		for pi, p := range w.Parties {
+			if len(p.Out) > 0 {
+				convs = append(convs, pi)
+				if len(p.In) > 1 {
+					multi = true
+				}
+			}
+		}
+		return multi && hasConverterCycle(&w, convs)
+	}},
+	{"fault_plan", func(w world.World, v core.Violation) bool { return len(w.Faults) > 0 }},
+	{"subtype_labels", func(w world.World, v core.Violation) bool {
+		for _, p := range w.Parties {
+			for _, s := range append(append([]world.Slot{}, p.In...), p.Out...) {
+				if s.Sub != "" {
+					return true
+				}
+			}
+		}
+		for _, a := range usedArgs(w) {
+			if a.Label.Sub != "" {
+				return true
+			}
+		}
+		return false
+	}},
+	{"interface_types", func(w world.World, v core.Violation) bool {
+		for _, p := range w.Parties {
+			for _, s := range append(append([]world.Slot{}, p.In...), p.Out...) {
+				if world.IsIface(s.Type) {
+					return true
+				}
+			}
+		}
+		return false
+	}},
+	{"converter_chain", func(w world.World, v core.Violation) bool { return len(w.Parties) > 2 }},
+	{"single_converter", func(w world.World, v core.Violation) bool { return len(w.Parties) == 2 }},
+}
+
+func usedArgs(w world.World) []world.ArgSpec {
+	used := map[int]bool{}
+	for _, o := range w.Ops {
+		for _, a := range o.Args {
+			used[a] = true
+		}
+	}
+	for _, p := range w.Parties {
+		for _, d := range p.Defaults {
+			used[d] = true
+		}
+	}
+	var out []world.ArgSpec
+	for i, a := range w.Args {
+		if used[i] {
+			out = append(out, a)
+		}
+	}
+	return out
+}
